@@ -79,7 +79,11 @@ let show_spec (ls : int list list) =
   String.concat "" (List.map (fun xs -> " |" ^ String.concat "" (List.map (fun v -> " " ^ string_of_int v) xs)) ls)
 
 let () =
-  let exact = Array.length Sys.argv > 1 && Sys.argv.(1) = "exact" in
+  let args = Array.to_list Sys.argv in
+  let exact = List.mem "exact" args in
+  (* "guard": Array.h has the isOwnElement repair (patches/C26_alias_value.diff); the model then copies own-element
+     arguments to a local object first *)
+  let guard = List.mem "guard" args in
   let w = ref (init_world O) and ls = ref [] and counted = ref true and dead = ref false in
   (try
     while true do
@@ -97,7 +101,7 @@ let () =
           let k = List.length !w.arrs in
           let r = ref (Ok !w) in
           for j = 0 to k - 1 do
-            r := (match !r with Ok w1 -> step 0 w1 (Deallocate (nat_of_int j)) | e -> e)
+            r := (match !r with Ok w1 -> step 0 guard w1 (Deallocate (nat_of_int j)) | e -> e)
           done;
           (match !r with
            | Ok w1 -> if !counted then Printf.printf "E live=%d\n" (int_of_n w1.wctor - int_of_n w1.wdtor) else print_string "E\n"
@@ -107,7 +111,7 @@ let () =
       else begin
         let os = parse t in
         let sp = List.fold_left (fun acc o -> match acc with Some l -> sstep 0 l o | None -> None) (Some !ls) os in
-        (match List.fold_left (fun acc o -> match acc with Ok w1 -> step 0 w1 o | e -> e) (Ok !w) os with
+        (match List.fold_left (fun acc o -> match acc with Ok w1 -> step 0 guard w1 o | e -> e) (Ok !w) os with
          | Ok w1 ->
            if !counted then
              Printf.printf "A ok %d %d %d" (int_of_n w1.wctor - int_of_n !w.wctor) (int_of_n w1.wdtor - int_of_n !w.wdtor)
